@@ -30,8 +30,8 @@ CLAIMED.update({
     "C08": {"engine": "kani+mir-smt", "design_ref": "DESIGN.md §4 C08", "technique": "bounded model checking (Kani/CBMC) of LinkFlowState<Sender> step functions over all 32-bit values; MIR->SMT (z3+cvc5) symbolic schedule exploration of the credit waiter",
             "text": "One step from an arbitrary sender flow state, all 32-bit values: link-credit follows the spec formula in serial arithmetic (unset delivery-count/link-credit handled), drain consumes all credit and answers with a zero-credit flow, echo is honoured, a delivery consumes exactly one credit and is refused at zero credit. Lost wake-up: the MIR of the real waiter coroutine (consume + consume_link_credit) is executed symbolically against tokio::Notify's documented contract with the grant placed at every call boundary of the waiter (including the cfg schedule_point between the failed check and the wait) and z3+cvc5 show the next poll completes; counterexamples are replayed natively through the schedule hook with the real tokio Notify.",
             "note": _NOTE + " Stubs: parking_lot RawRwLock slow paths panic (never reached)."},
-    "C09": {"engine": "kani", "design_ref": "DESIGN.md §4 C09", "technique": "bounded model checking (Kani/CBMC) of LinkFlowState<Receiver> step functions over all 32-bit values",
-            "text": "One step from an arbitrary receiver flow state: a transfer is accepted iff credit >= 1 (else transfer-limit-exceeded with the state unchanged), accepted => credit-1 and delivery-count+1; the sender's flow is mirrored (delivery-count, available) without touching the issued credit; flows report exactly the stored state. Auto-credit replenishment timing is outside.",
+    "C09": {"engine": "kani+mir-smt", "design_ref": "DESIGN.md §4 C09", "technique": "bounded model checking (Kani/CBMC) of LinkFlowState<Receiver> step functions; MIR->SMT (z3+cvc5) on the auto-credit top-up functions",
+            "text": "One step from an arbitrary receiver flow state: a transfer is accepted iff credit >= 1 (else transfer-limit-exceeded with the state unchanged), accepted => credit-1 and delivery-count+1; the sender's flow is mirrored (delivery-count, available) without touching the issued credit; flows report exactly the stored state (Kani). Replenishment (MIR->SMT): every disposal site hands the processed count INCLUDING the disposal to the top-up check; with Auto(n) a flow re-issuing n is produced and the counter reset exactly when processed >= n/2; a no-stall lemma over the counters. Counterexamples are replayed on a real ReceiverInner natively. Manual-mode call sequences and multi-frame deliveries are outside.",
             "note": _NOTE + " Stubs: parking_lot RawRwLock slow paths panic (never reached)."},
     "C10": {"engine": "kani", "design_ref": "DESIGN.md §4 C10", "technique": "bounded model checking (Kani/CBMC) of IncompleteTransfer::or_assign (quick) and the chained-buffer reader (thorough)",
             "text": "For symbolic optional delivery-id, message-format, settled and 1-byte delivery-tags on a first and a continuation frame: omitted fields keep the first frame's value, equal repeats are accepted, contradictions are an error, settled is sticky-true. The chained reader / append order harnesses are thorough-tier only. Receiver::on_incoming_transfer (async, mpsc) is outside.",
@@ -40,7 +40,7 @@ CLAIMED.update({
             "text": "For all counter values: a frame that starts a delivery gets delivery-id = next-outgoing-id, continuation frames get none, every frame advances the counter by one (strictly increasing ids, no reuse within 2^32 frames); the channel handed to a new session is exactly the slab's vacant key and <= channel-max. Link handles, names and routing tables (hash maps) are outside.",
             "note": _NOTE_M + " Environment contract: slab::VacantEntry::key is an unoccupied index."},
     "C12": {"engine": "kani+mir-smt", "design_ref": "DESIGN.md §4 C12", "technique": "Kani/CBMC on Connection::on_incoming_open/close from every state; MIR->SMT (z3+cvc5) on the send_open/send_close coroutines from every state",
-            "text": "From every one of the 14 connection states, with error present/absent: the transition functions follow the AMQP 2.4.6 diagram (spec table written in the harness / obligation), illegal (state,event) pairs fail with the state unchanged, exactly one frame is handed to the sink per send, the peer's error is surfaced. Ordering across the engine loop (header first, discard after error, EOF) is outside.",
+            "text": "From every one of the 14 connection states, with error present/absent: the transition functions follow the AMQP 2.4.6 diagram (spec table written in the harness / obligation), illegal (state,event) pairs fail with the state unchanged, exactly one frame is handed to the sink per send, the peer's error is surfaced; and in the connection engine's Close arm (MIR->SMT) the state function's error is never swallowed and a peer-initiated close is answered with exactly one close (replayed natively with a real client connection against a scripted peer over an in-memory duplex). Header ordering, discarding after an error close and EOF handling are outside.",
             "note": _NOTE + " " + _NOTE_M},
     "C13": {"engine": "mir-smt", "design_ref": "DESIGN.md §4 C13", "technique": "symbolic execution of rustc MIR of the session/link lifecycle functions from every state, decided by z3 and cvc5",
             "text": "From every SessionState / LinkState with error and closed flags symbolic: on_incoming_begin/end, send_begin/send_end, Link::on_incoming_detach and send_detach follow the session/link diagrams; closing is answered with closing; mismatched answers are refused; illegal events fail with the state unchanged; at most one frame per call and only in a legal state; the output handle is released only on reaching DETACHED/CLOSED in on_incoming_detach. 'No later than the next operation', draining and Drop are outside.",
